@@ -550,3 +550,15 @@ FAMILIES.append(
            reach=['fires-while-inner-scope-waits-for-its-child'],
            bounds='until(n) around a plain Scope of the same activity with a child (and '
                   'optionally a volatile child); n of kinds ==, + (thorough: >=, rational dates)'))
+
+
+def _reuse_connective(E, **kw):
+    from .c08 import fam_reuse_cond
+    return fam_reuse_cond(E, **kw)
+
+
+FAMILIES.append(
+    Family('reuse_connective', _reuse_connective, quick=dict(modes=(1,)), thorough=dict(modes=(1,)),
+           reach=['second-use-after-the-first-was-released', 'second-use-after-a-reset'],
+           bounds='a stored (a & b) | c / a | c object used by two until-blocks entered in [0,30] '
+                  'while five flag toggles happen at free gaps in [0,6] (harness shared with C08)'))
